@@ -4,6 +4,7 @@ import (
 	"context"
 	"fmt"
 	"math"
+	"math/big"
 	"math/rand/v2"
 	"reflect"
 	"runtime"
@@ -115,6 +116,9 @@ func c17EventOf(msg mocrelay.ClientMsg) *mocrelay.Event {
 	return nil
 }
 
+// c17Sub is a - b without wrap-around (created_at and the limits range over all of int64).
+func c17Sub(a, b int64) *big.Int { return new(big.Int).Sub(big.NewInt(a), big.NewInt(b)) }
+
 // respectsEvent: the per-event predicates of the statement (now = reference time of
 // the session; generated timestamps keep c17Margin seconds from every boundary).
 func (m c17MW) respectsEvent(ev *mocrelay.Event, now int64) bool {
@@ -124,12 +128,13 @@ func (m c17MW) respectsEvent(ev *mocrelay.Event, now int64) bool {
 	case "content":
 		return int64(len(ev.Content)) <= m.N // byte/rune ambiguity excluded by the generator
 	case "lower":
-		return now-ev.CreatedAt <= m.N
+		return c17Sub(now, ev.CreatedAt).Cmp(big.NewInt(m.N)) <= 0
 	case "upper":
-		return ev.CreatedAt-now <= m.N
+		return c17Sub(ev.CreatedAt, now).Cmp(big.NewInt(m.N)) <= 0
 	case "window":
-		d := ev.CreatedAt - now
-		return m.From <= d && d <= m.To
+		d := c17Sub(ev.CreatedAt, now)
+		// the ends of the int64 range stand for "no bound on this side" (see c17Dur)
+		return (m.From == math.MinInt64 || big.NewInt(m.From).Cmp(d) <= 0) && (m.To == math.MaxInt64 || d.Cmp(big.NewInt(m.To)) <= 0)
 	case "allow":
 		return vk.RefMatch(m.Filter, ev)
 	case "deny":
@@ -180,17 +185,25 @@ func c17Dur(sec int64) time.Duration {
 	return time.Duration(sec) * time.Second
 }
 
-// boundaries returns the moving created_at boundaries of the middleware.
+// boundaries returns the moving created_at boundaries of the middleware (those that are
+// timestamps at all: a boundary outside the int64 range is nothing a created_at can come near).
 func (m c17MW) boundaries(now int64) []int64 {
+	var out []int64
+	add := func(b *big.Int) {
+		if b.IsInt64() {
+			out = append(out, b.Int64())
+		}
+	}
 	switch m.Kind {
 	case "lower":
-		return []int64{now - m.N}
+		add(c17Sub(now, m.N))
 	case "upper":
-		return []int64{now + m.N}
+		add(c17Sub(now, 0).Add(big.NewInt(now), big.NewInt(m.N)))
 	case "window":
-		return []int64{now + m.From, now + m.To}
+		add(new(big.Int).Add(big.NewInt(now), big.NewInt(m.From)))
+		add(new(big.Int).Add(big.NewInt(now), big.NewInt(m.To)))
 	}
-	return nil
+	return out
 }
 
 type c17Cfg struct {
@@ -270,11 +283,7 @@ func (c *c17Cfg) statelessCulprits(msg mocrelay.ClientMsg) []string {
 func (c *c17Cfg) timeOK(at int64) bool {
 	for _, m := range c.MWs {
 		for _, b := range m.boundaries(c.Now) {
-			d := at - b
-			if d < 0 {
-				d = -d
-			}
-			if d < c17Margin {
+			if d := c17Sub(at, b); d.Abs(d).Cmp(big.NewInt(c17Margin)) < 0 {
 				return false
 			}
 		}
@@ -370,7 +379,10 @@ func (g *c17Gen) createdAt() (int64, string) {
 	for try := 0; try < 40; try++ {
 		var at int64
 		var rel string
-		switch k := r.IntN(9); {
+		switch k := r.IntN(10); {
+		case k == 9: // before the epoch, down to the start of the int64 range (created_at is an unconstrained int64 here)
+			at, rel = vk.Pick(r, []int64{math.MinInt64, math.MinInt64 + 1, math.MinInt64 + 1000000000, math.MinInt64 + 4000000000, -1 << 62,
+				-9223372037, -62135596801, -62135596800, -now, -1, -1 - int64(r.IntN(86400))}), "absurd-"
 		case k == 8: // absurdly far in the future: where seconds * 1e9 or conversions to time.Time overflow
 			at, rel = vk.Pick(r, []int64{math.MaxInt64, math.MaxInt64 - 1, 9223371974719179008, 9223371974719179007, 1 << 62,
 				now * 1000, now*1000 + int64(r.IntN(86400000)), now + 10000000000, now + 18446744073, now + 9223372037}), "absurd+"
@@ -391,7 +403,7 @@ func (g *c17Gen) createdAt() (int64, string) {
 		default:
 			at, rel = now+int64(r.IntN(200001))-100000, "day"
 		}
-		if at < 0 {
+		if at < 0 && rel != "absurd-" {
 			at, rel = 0, "epoch"
 		}
 		if g.cfg.timeOK(at) {
@@ -1910,7 +1922,13 @@ func c17NIP11Doc(r *rand.Rand, variant int) (*mocrelay.NIP11, []c17MW) {
 	l := &mocrelay.NIP11Limitation{}
 	doc.Limitation = l
 	if r.IntN(2) == 0 {
-		l.MaxMessageLength = 1 << 20
+		// not a limit the chain enforces (the relay's read limit is a separate option): whatever it
+		// is set to - also at or below the content limit - says nothing about the other members
+		l.MaxMessageLength = vk.Pick(r, []int{1 << 20, 1 << 20, 9, 10, 64, 300, 4096})
+	}
+	if r.IntN(4) == 0 {
+		// members that describe the relay and configure nothing here
+		l.MinPoWDifficulty, l.AuthRequired, l.PaymentRequired = r.IntN(30), r.IntN(2) == 0, r.IntN(2) == 0
 	}
 	if r.IntN(2) == 0 {
 		l.MaxSubIDLength = 64 // every generated sub id is far shorter
